@@ -235,6 +235,12 @@ Gen/TrackingGen.vos Gen/TrackingGen.vok Gen/TrackingGen.required_vos: Gen/Tracki
 Gen/WalkGen.vo Gen/WalkGen.glob Gen/WalkGen.v.beautified Gen/WalkGen.required_vo: Gen/WalkGen.v 
 Gen/WalkGen.vio: Gen/WalkGen.v 
 Gen/WalkGen.vos Gen/WalkGen.vok Gen/WalkGen.required_vos: Gen/WalkGen.v 
+Modules/Rva.vo Modules/Rva.glob Modules/Rva.v.beautified Modules/Rva.required_vo: Modules/Rva.v 
+Modules/Rva.vio: Modules/Rva.v 
+Modules/Rva.vos Modules/Rva.vok Modules/Rva.required_vos: Modules/Rva.v 
+Modules/RvaProofs.vo Modules/RvaProofs.glob Modules/RvaProofs.v.beautified Modules/RvaProofs.required_vo: Modules/RvaProofs.v Modules/Rva.vo
+Modules/RvaProofs.vio: Modules/RvaProofs.v Modules/Rva.vio
+Modules/RvaProofs.vos Modules/RvaProofs.vok Modules/RvaProofs.required_vos: Modules/RvaProofs.v Modules/Rva.vos
 Opt/Bounds.vo Opt/Bounds.glob Opt/Bounds.v.beautified Opt/Bounds.required_vo: Opt/Bounds.v Gen/BoundsGen.vo
 Opt/Bounds.vio: Opt/Bounds.v Gen/BoundsGen.vio
 Opt/Bounds.vos Opt/Bounds.vok Opt/Bounds.required_vos: Opt/Bounds.v Gen/BoundsGen.vos
@@ -280,6 +286,9 @@ Pat/Base64.vos Pat/Base64.vok Pat/Base64.required_vos: Pat/Base64.v Pat/Syntax.v
 Pat/Blocks.vo Pat/Blocks.glob Pat/Blocks.v.beautified Pat/Blocks.required_vo: Pat/Blocks.v 
 Pat/Blocks.vio: Pat/Blocks.v 
 Pat/Blocks.vos Pat/Blocks.vok Pat/Blocks.required_vos: Pat/Blocks.v 
+Pat/BlocksCheck.vo Pat/BlocksCheck.glob Pat/BlocksCheck.v.beautified Pat/BlocksCheck.required_vo: Pat/BlocksCheck.v Pat/Blocks.vo Gen/ScanState.vo Scanner/State.vo
+Pat/BlocksCheck.vio: Pat/BlocksCheck.v Pat/Blocks.vio Gen/ScanState.vio Scanner/State.vio
+Pat/BlocksCheck.vos Pat/BlocksCheck.vok Pat/BlocksCheck.required_vos: Pat/BlocksCheck.v Pat/Blocks.vos Gen/ScanState.vos Scanner/State.vos
 Pat/BlocksProofs.vo Pat/BlocksProofs.glob Pat/BlocksProofs.v.beautified Pat/BlocksProofs.required_vo: Pat/BlocksProofs.v Pat/Blocks.vo
 Pat/BlocksProofs.vio: Pat/BlocksProofs.v Pat/Blocks.vio
 Pat/BlocksProofs.vos Pat/BlocksProofs.vok Pat/BlocksProofs.required_vos: Pat/BlocksProofs.v Pat/Blocks.vos
